@@ -142,6 +142,19 @@ def chains_of_optargs(optargs):
     return out
 
 
+def titrate_only_of_optargs(optargs):
+    """the --titrate_only list as the command line spells it: `raw:<hex of the option's text>` (parsed by the model of
+    parse_res_list), `-` without the option"""
+    it = iter(list(optargs))
+    val = None
+    for a in it:
+        if a in ("-i", "--titrate_only"):
+            val = next(it, None)
+        elif a.startswith("--titrate_only="):
+            val = a[len("--titrate_only="):]
+    return "-" if val is None else "raw:" + hx(val)
+
+
 def program_request(text, options, rp="-", optargs=None):
     lines = text.split("\n")
     if lines and lines[-1] == "":
@@ -153,7 +166,7 @@ def program_request(text, options, rp="-", optargs=None):
     ch = chains_of_optargs(optargs) if optargs is not None else getattr(options, "chains", None)
     gw = ",".join(str(common.bits(float(x))) for x in tuple(getattr(options, "grid", (0.0, 14.0, 0.1))) + tuple(getattr(options, "window", (0.0, 14.0, 1.0))))
     return "pipe pdb %s %s %s %s %s default %s %s" % (
-        rp, "1" if getattr(options, "protonate_all", False) else "0", to_arg(options),
+        rp, "1" if getattr(options, "protonate_all", False) else "0", titrate_only_of_optargs(optargs) if optargs is not None else to_arg(options),
         ("1" if getattr(options, "keep_protons", False) else "0") + ("d" if getattr(options, "display_coupled_residues", False) else ""),
         ",".join(hx(c) for c in ch) if ch else "-", gw, ",".join(hx(l) for l in raw) or "-")
 
